@@ -653,6 +653,16 @@ func (e *Exec) keyConc(v Val) (string, bool) {
 		}
 		s, ok := e.keyConc(k.V)
 		return k.T.String() + "/" + s, ok
+	case *Agg:
+		out := "{"
+		for i := range k.Elems {
+			s, ok := e.keyConc(e.aggElem(k, i))
+			if !ok {
+				return "", false
+			}
+			out += s + ";"
+		}
+		return out + "}", true
 	}
 	return "", false
 }
